@@ -20,26 +20,32 @@ def collect_pairs():
     def cells(fn):
         return dict(zip(fn.__code__.co_freevars, (c.cell_contents for c in fn.__closure__))) if fn.__closure__ else {}
 
+    def item_of(fn):
+        c = cells(fn)
+        named = c.get("item_writer") or c.get("item_reader")
+        if named is not None:
+            return named
+        cand = [v for v in c.values() if callable(v) and not isinstance(v, type)]
+        return cand[0] if len(cand) == 1 else None
+
     def add(w, r, where):
         qw, qr = getattr(w, "__qualname__", ""), getattr(r, "__qualname__", "")
         if "array" in qw and "<locals>" in qw:
-            cw, cr = cells(w), cells(r)
-            if "item_writer" in cw and "item_reader" in cr:
-                add(cw["item_writer"], cr["item_reader"], where + "[]")
+            iw, ir = item_of(w), item_of(r)
+            if iw is not None and ir is not None:
+                add(iw, ir, where + "[]")
             pairs.setdefault((qw.split(".")[0], qr.split(".")[0]), where)
             return
         if w.__module__ in ("kio.serial._serialize",) or r.__module__ in ("kio.serial._parse",):
             return      # nested entity: its own class-level obligation
         pairs.setdefault((w.__name__, r.__name__), where)
+    from contracts.entity import plan_callables
     for T in l2.all_entities():
-        cw, cr = cells(entity_writer(T)), cells(entity_reader(T))
-        fw = {f.name: w for f, w in cw["field_writers"].items()}
-        fr = {f.name: r for f, r in cr["field_readers"].items()}
+        fw, tw = plan_callables(entity_writer(T))
+        fr, tr = plan_callables(entity_reader(T))
         for n in fw:
             if n in fr:
                 add(fw[n], fr[n], f"{T.__module__}:{T.__qualname__}.{n}")
-        tw = {t: v for t, v in cw["tagged_field_writers"].items()}
-        tr = {t: v for t, v in cr["tagged_field_readers"].items()}
         for t in tw:
             if t in tr:
                 add(tw[t][1], tr[t][1], f"{T.__module__}:{T.__qualname__}.tag{t}")
